@@ -27,7 +27,7 @@
                      release; wasyncore.dispatcher.close (connected:=False, map delete)
      WAcq/WNotif/WIdle  handler_thread: one dispatcher critical section per step
                      (every access of queue is under ThreadedTaskDispatcher.lock)
-     WSvc..WEnd2     service(): R requests[0]; R connected; the task (WApp: ENV decides
+     WSvc..WEnd2     service(): R requests[0]; R connected, R will_close; the task (WApp: ENV decides
                      the next write_soon or the end and close_on_finish); write_soon
                      (WWs1..WWsRel); _flush_outbufs_below_high_watermark (WHw..);
                      close branch (WCl..), keep branch (WK..), worker-side send_continue
@@ -127,7 +127,7 @@ Inductive iopc :=
 
 Inductive wpc :=
 | WIdle | WAcq | WNotif
-| WSvc | WApp
+| WSvc | WSvc2 | WApp
 | WWs1 (n : Z) | WWs2 (n : Z)
 | WHw1 (st : site) | WHwA | WHwF (st : site)
 | WHwEP (st : site) | WHwEW (st : site) | WHwEPk (st : site) (cap : bool) | WHwEN (st : site)
@@ -421,7 +421,8 @@ Definition step_w (c : cfg) (s : state) (i : nat) (ch : choice) : option (state 
       | S q => ret (setw (set_queue s q) i WSvc) [LWake CvQ; LRel LkD]
       end
   (* service() *)
-  | WSvc, CW _ => ret (go (if conn s then WApp else WCl1)) [LR AReq; LR AConn]
+  | WSvc, CW _ => ret (go (if conn s then WSvc2 else WCl1)) [LR AReq; LR AConn]
+  | WSvc2, CW _ => ret (go (if wc s then WCl1 else WApp)) [LR AWc]     (* and not self.will_close (64d926d) *)
   | WApp, CWApp _ (Some n) _ => if 0 <? n then ret (go (WWs1 n)) [LWrite] else None
   | WApp, CWApp _ None close => ret (go (if close then WCl1 else WK1)) [LDone]
   (* write_soon(data), len(data) = n > 0 *)
